@@ -1,10 +1,10 @@
 """C09 — modular and number-theoretic integer functions and scalar recodings are correct."""
 from props.bngen import hx, magnitude, signed
 from props.c01 import _cfg
-from props import c09_gcd, c09_mxp, c09_smb, c09_mod
+from props import c09_gcd, c09_mxp, c09_smb, c09_mod, c09_pol
 
-FAMILIES = (c09_gcd, c09_mxp, c09_smb, c09_mod)
-EXTRA_THEOREM_MODULES = ["RelicVerif.Props.C09Gcd", "RelicVerif.Props.C09Mxp", "RelicVerif.Props.C09Smb", "RelicVerif.Props.C09Mod"]
+FAMILIES = (c09_gcd, c09_mxp, c09_smb, c09_mod, c09_pol)
+EXTRA_THEOREM_MODULES = ["RelicVerif.Props.C09Gcd", "RelicVerif.Props.C09Mxp", "RelicVerif.Props.C09Smb", "RelicVerif.Props.C09Mod", "RelicVerif.Props.C09Pol"]
 
 TRUSTED = [
     "class A/B (modelled in Model/Rec.lean and proved): bn_rec_win/slw/naf/reg/jsf — value, digit set, length, sparsity",
